@@ -515,6 +515,11 @@ func c12(p *core.Prog, r *core.Report) {
 			if oc.St&core.StOwned == 0 || oc.St&(core.StEscaped|core.StAlias) != 0 {
 				continue
 			}
+			// returned through a local helper / closure that is handed the
+			// frame and returns a frame: the caller receives it
+			if oc.Ret != nil && returnedThroughCall(oc.Ret, rt.Root) {
+				continue
+			}
 			retDesc := "return"
 			if oc.Ret != nil {
 				var parts []string
@@ -873,4 +878,48 @@ func releasedByOwnersOnly(p *core.Prog, r *core.Report, rule string) {
 		r.Check(len(bad) == 0, rule, fname(f), "completing a response leaves the request's frames to the reader", p.Pos(f.Pos()),
 			"doneSending does not reach releasePreviousFragment", "completing the response releases the request's current frame while the handler may still read its arguments from it (the argument bytes become another message's)")
 	}
+}
+
+// returnedThroughCall: one of the returned values is (a component of) the
+// result of a call that was handed the frame and whose result type carries a
+// *Frame: `return checked(frame)`.
+func returnedThroughCall(ret *ssa.Return, root ssa.Value) bool {
+	for _, v := range core.ReturnValues(ret) {
+		if e, ok := v.(*ssa.Extract); ok {
+			v = e.Tuple
+		}
+		c, ok := v.(*ssa.Call)
+		if !ok {
+			continue
+		}
+		passed := false
+		for _, a := range c.Call.Args {
+			if a == root {
+				passed = true
+			}
+		}
+		if !passed {
+			continue
+		}
+		hasFrame := func(t types.Type) bool {
+			pt, ok := t.(*types.Pointer)
+			if !ok {
+				return false
+			}
+			n, ok := pt.Elem().(*types.Named)
+			return ok && n.Obj().Name() == "Frame"
+		}
+		t := c.Type()
+		if hasFrame(t) {
+			return true
+		}
+		if tup, ok := t.(*types.Tuple); ok {
+			for k := 0; k < tup.Len(); k++ {
+				if hasFrame(tup.At(k).Type()) {
+					return true
+				}
+			}
+		}
+	}
+	return false
 }
